@@ -217,6 +217,10 @@ class PSFModelMachine(Machine):
             return {'op': 'reject3d', 'actor': k}
         if r < 0.985:
             return {'op': 'decoy', 'actor': k}
+        if r < 0.99 and self.variant == 'gridded':
+            # looking at the grid of ePSFs is a read
+            return {'op': 'plot_grid', 'actor': k,
+                    'deltas': rng.chance(0.6), 'peak_norm': rng.chance(0.4)}
         if r < 0.995:
             # forced photometry: a parameter is held fixed (no effect on
             # what the model evaluates to, nor on its relatives)
@@ -372,6 +376,16 @@ class PSFModelMachine(Machine):
         st.held.check(f'by {kind}')
 
     def _step(self, st, op, a, m, kind):
+        if kind == 'plot_grid':
+            if self.variant != 'gridded':
+                raise Inapplicable(kind)
+            import matplotlib.pyplot as plt
+            out = call(m.plot_grid, deltas=bool(op['deltas']),
+                       peak_norm=bool(op['peak_norm']))
+            plt.close('all')
+            st.stats.probe('grid_plotted' if not isinstance(out, Raised)
+                           else 'grid_plot_raised')
+            return
         if kind == 'fix':
             out = call(lambda: setattr(getattr(m, op['name']), 'fixed',
                                        bool(op['value'])))
